@@ -389,10 +389,6 @@ def gen_c14_session(seed: int, index: int, ctx: GenCtx, faulty: bool, max_ops: i
     if rng.random() < 0.3:
         b.gc_knob()
     while len(b.ops) < nops:
-        if keep_export_dir:
-            for o_ in b.ops:
-                if o_["op"] == "cli":
-                    o_["keep_files"] = True
         kind = rng.choice(enabled)
         cid = rng.choice(pool)
         s1 = _s1(rng, policy)
@@ -447,9 +443,10 @@ def gen_c14_session(seed: int, index: int, ctx: GenCtx, faulty: bool, max_ops: i
                         # counter and must stay within 10x the reference's step count
                         probe["trace"] = "count"
     if keep_export_dir:
+        # every operation, not only the CLI runs: an API operation between two runs must not empty
+        # the directory either (it did at first, and S14-27/S14-28 were missed for it)
         for o_ in b.ops:
-            if o_["op"] == "cli":
-                o_["keep_files"] = True
+            o_["keep_files"] = True
     return {"ops": b.ops, "hashseed": hashseed, "index": index, "faulty": faulty, "policy": policy}
 
 
